@@ -13,6 +13,7 @@ Extraction "model.ml"
   compact_encode num_decode num_decode_old num_cmp num_cmp_old num_eqb as_i64 as_u64 as_f64 normalise
   parse_value from_slice doc_of cmp_value compare_m value_eqb
   compare_w comparable_w
+  key_safe_doc
   to_string_w to_pretty_string_w
   array_length_w get_by_index_w get_by_name_w get_by_keypath_w object_keys_w object_each_w array_values_w
   type_of_w as_null_w as_bool_w as_number_w as_i64_w as_u64_w as_f64_w as_str_w is_array_w is_object_w
